@@ -380,9 +380,17 @@ pub fn run(ctx: &mut Ctx) {
                     // links reversed as well
                     f.edges.reverse();
                     ctx.transitions(f.n_steps());
-                    if let Ok(ont) = drive::build(&f, Mode::Minimal) {
-                        let case = || json!({"shape": what, "term_order": oname, "links": "reversed", "n_terms": n});
-                        check_against_model(ctx, &ont, &r, Mode::Minimal, "builder", &case);
+                    match drive::build(&f, Mode::Minimal) {
+                        // (the same facts in another call order: valid, so a refusal or a panic is a violation as above)
+                        Err(e) => {
+                            ctx.exec();
+                            ctx.violation("Builder", "[builder] construction fails on valid facts", json!({"shape": what, "order": oname, "links": "reversed", "observed": e}));
+                        }
+                        Ok(ont) => {
+                            let case = || json!({"shape": what, "term_order": oname, "links": "reversed", "n_terms": n});
+                            check_against_model(ctx, &ont, &r, Mode::Minimal, "builder", &case);
+                            check_pairs(ctx, &ont, &r, "builder", &case);
+                        }
                     }
                     f.edges.reverse();
                     // binary v3 and obo in this term order
@@ -461,6 +469,7 @@ pub fn run(ctx: &mut Ctx) {
                 let pf = encode::project(&base, version);
                 let r = RefOnt::derive(&pf);
                 let mut variants: Vec<(Facts, EncOpts, &str)> = vec![];
+                let canonical = encode::encode(&pf, &EncOpts::v(version));
                 for p in &perms {
                     variants.push((Facts { terms: apply_perm(&pf.terms, p), ..pf.clone() }, EncOpts::v(version), "term-record order"));
                     let mut o = EncOpts::v(version);
@@ -484,6 +493,12 @@ pub fn run(ctx: &mut Ctx) {
                     o.split_parent_records = split;
                     o.repeat_parent_ids = repeat;
                     let bytes = encode::encode(&pf, &o);
+                    // (keyed on the file, not on the option: on a graph without a term with two parents / without any
+                    // link the option changes nothing - that file is the documented one and is decoded strictly below)
+                    if bytes == canonical {
+                        variants.push((pf.clone(), o, what));
+                        continue;
+                    }
                     ctx.transitions(pf.n_steps());
                     super::c08::self_consistent_or_refused(ctx, &bytes, &format!("binary v{version}, {what}"), &|| json!({"facts": pf.to_json(), "format_version": version, "layout": what}));
                 }
@@ -496,7 +511,8 @@ pub fn run(ctx: &mut Ctx) {
                             check_against_model(ctx, &ont, &r, Mode::Defaults, &format!("binary v{version}"), &case);
                             check_pairs(ctx, &ont, &r, &format!("binary v{version}"), &case);
                         }
-                        Ok(Err(_)) | Err(_) if o.ids_in_list_order => {
+                        // (lenient only if the file really has ids in another than ascending order inside a record)
+                        Ok(Err(_)) | Err(_) if o.ids_in_list_order && bytes != canonical => {
                             ctx.exec();
                             ctx.bump("refused: parent ids inside a record not ascending", 1);
                         }
@@ -686,6 +702,8 @@ pub fn run(ctx: &mut Ctx) {
                 for root in [1u32, 118] {
                     for leaves in [vec![last], vec![last, middle]] {
                         if leaves.iter().any(|l| !r.terms[l].ancestors.contains(&root)) {
+                            // (a property of the shape, not of the crate: such a call is not part of this space)
+                            ctx.bump("not applicable: large-source leaf set not below the chosen root", 1);
                             continue;
                         }
                         ctx.transitions(1 + leaves.len() as u64);
@@ -696,7 +714,11 @@ pub fn run(ctx: &mut Ctx) {
                                 if let Some(own) = self_consistent_model(ctx, &sub, "sub_ontology", Mode::Minimal, &case) {
                                     check_pairs(ctx, &sub, &own, "sub_ontology", &case);
                                     // ... and a sub-ontology of the result (leaf below root in the result's own links)
-                                    if own.terms.get(&last).is_some_and(|t| t.ancestors.contains(&root)) {
+                                    if !own.terms.get(&last).is_some_and(|t| t.ancestors.contains(&root)) {
+                                        // (the first result lost the leaf or its path to root: that is C14's finding; the
+                                        // second call has no valid arguments then - counted, not silent)
+                                        ctx.bump("skipped: sub_ontology of a sub_ontology, the leaf is not below root in the first result's own links", 1);
+                                    } else {
                                         match sub_of(&sub, &[last]) {
                                             Ok(Ok(sub2)) => {
                                                 if let Some(own2) = self_consistent_model(ctx, &sub2, "sub_ontology of a sub_ontology", Mode::Minimal, &case) {
